@@ -543,7 +543,14 @@ def run_obligation(prop, ob_dict, known):
                 ctx.claim('finite', False, 'non-finite value: %s' % e)
             return ctx
 
+        main_pid = int(os.environ.get('VF_MAIN_PID', '0') or 0)
+
         def on_path(r, is_exc):
+            if main_pid:
+                try:
+                    os.kill(main_pid, 0)
+                except OSError:
+                    os._exit(0)          # the check that started this worker is gone (killed / timed out)
             if time.time() > deadline:
                 raise E.Budget('obligation wall budget %ds exhausted' % ob.timeout_s)
             ctx = holder['ctx']
